@@ -18,7 +18,7 @@ RELATED = {'C18-2': ['C01', 'C02'], 'C02-1': ['C02', 'C03'], 'C08-2': ['C08', 'C
            'C18-8': ['C18', 'C13'], 'C08-7': ['C08', 'C11'], 'C09-8': ['C09', 'C02', 'C01'], 'C18-7': ['C18', 'C10', 'C16'], 'C13-8': ['C13', 'C08'],
            'C04-8': ['C04', 'C18'], 'C06-10': ['C06', 'C10', 'C08'], 'C01-7': ['C01', 'C07'], 'C01-8': ['C01', 'C03'], 'C06-9': ['C06', 'C01'],
            'C02-10': ['C02', 'C01', 'C11'], 'C03-9': ['C03', 'C01', 'C02'], 'C07-5': ['C07', 'C01', 'C02'], 'C07-6': ['C07', 'C01', 'C02'], 'C18-9': ['C18', 'C17'], 'C05-9': ['C05', 'C04', 'C03'],
-           'C09-10': ['C09', 'C10', 'C08'], 'C01-12': ['C01', 'C03'], 'C08-11': ['C08', 'C11'], 'C04-12': ['C04', 'C01', 'C05'], 'C16-11': ['C16', 'C05']}
+           'C09-10': ['C09', 'C10', 'C08'], 'C01-12': ['C01', 'C03'], 'C08-11': ['C08', 'C11'], 'C04-12': ['C04', 'C01', 'C05'], 'C16-11': ['C16', 'C05'], 'C07-8': ['C07', 'C01'], 'C10-11': ['C10', 'C16']}
 
 
 def sh(cmd, cwd=None):
